@@ -318,8 +318,11 @@ def run_phase(ctx, ph):
         # differ between executions; but every KIND of deviation must show up again, otherwise it was a fluke of the harness
         k1 = {dev_key(b) for b in bads}
         k2 = {dev_key(b) for b in bads2}
-        if not k1 <= k2:
+        if not (k1 & k2):
             raise Infra(f"{name}: deviation kind(s) {sorted(k1 - k2)} did not reproduce on re-execution: not reported (flaky)")
+        if k1 - k2:
+            log(f"{name}: deviation kind(s) {sorted(k1 - k2)} did not reproduce and are dropped; {len(k1 & k2)} kind(s) reproduced")
+            bads = [b for b in bads if dev_key(b) in k2]
     lines_by_id = {}
     if bads:
         want = {b["id"] for b in bads}
